@@ -189,14 +189,18 @@ pub fn check(a: &Analysis, _aux: &mut Aux, t: &mut Tally) -> Vec<Violation> {
         if p0.len() < 32 {
             continue;
         }
-        let rm = u32::from_be_bytes([p0[0], p0[1], p0[2], p0[3]]);
-        if rm & 0x8000_0000 == 0 || (rm & 0x7fff_ffff) as usize != p0.len() - 4 {
-            // not a single record-marked message in one segment: C11's domain
-            continue;
+        // exactly one record (of one or several fragments) in the segment; anything else is
+        // C11's domain
+        let (body0, nfrag0) = match rpc::defragment(p0) {
+            Some(x) => x,
+            None => continue,
+        };
+        if nfrag0 > 1 {
+            t.probe("call-in-several-record-fragments");
         }
         let v6 = matches!(st.flow.src, IpAddr::V6(_));
         let c = Case {
-            call: &p0[4..],
+            call: &body0,
             wire: p0,
             reply: s0.reply_app.as_deref(),
             tcp: true,
@@ -220,12 +224,15 @@ pub fn check(a: &Analysis, _aux: &mut Aux, t: &mut Tally) -> Vec<Violation> {
             if p.len() < 32 {
                 break;
             }
-            let rm = u32::from_be_bytes([p[0], p[1], p[2], p[3]]);
-            if rm & 0x8000_0000 == 0 || (rm & 0x7fff_ffff) as usize != p.len() - 4 {
-                break;
+            let (body, nfrag) = match rpc::defragment(p) {
+                Some(x) => x,
+                None => break,
+            };
+            if nfrag > 1 {
+                t.probe("call-in-several-record-fragments");
             }
             let c = Case {
-                call: &p[4..],
+                call: &body,
                 wire: p,
                 reply: sg.reply_app.as_deref(),
                 tcp: true,
